@@ -160,14 +160,14 @@ func intDocs(k reflect.Kind) []string {
 
 var (
 	floatDocs  = []string{"1.5", "0", "-0", "1e400", "-1e400", "1e-400", "3.4028236e38", "1", "null", `"1.5"`, "true", "123456789012345678901234567890", "[]"}
-	stringDocs = []string{`"a"`, `""`, `"é\n\"\\\/"`, `"😀"`, `"\ud83d"`, "null", "1", "true", "[]", "{}", "\"\xc3\xa9\"", "\"\xff\""}
+	stringDocs = []string{`"a"`, `""`, `"é\n\"\\\/"`, `"😀"`, `"\ud83d"`, "null", "1", "true", "[]", "{}", "\"\xc3\xa9\"", "\"\xff\"", `"x\\\"]}"`}
 	boolDocs   = []string{"true", "false", "null", "1", `"true"`, "[]"}
 	bytesDocs  = []string{`"YWI="`, `""`, `"!!"`, "null", "[1,2]", `"YWI"`, "1", `"YQ=="`}
 	numberDocs = []string{"1", "-1.5e3", "null", `"1"`, `"abc"`, "true", "[]", "0"}
-	rawDocs    = []string{`{"a": 1}`, "null", "1", `"s"`, `[1, 2]`, "true"}
+	rawDocs    = []string{`{"a": 1}`, "null", "1", `"s"`, `[1, 2]`, "true", `["a\\\"]",{"k\\\\":"\\\"}"}]`}
 	timeDocs   = []string{`"1970-01-01T00:00:01Z"`, "null", `"bad"`, "1", "{}"}
-	ifaceDocs  = []string{"1", `"s"`, "null", "true", `[1,"a"]`, `{"k":1,"k":2}`, "-1.5e3", "12345678901234567890", "{}", "[]", `{"a":{"b":[null]}}`}
-	ujDocs     = []string{`{"a": 1}`, "null", "1", `"s"`, `[1, 2]`}
+	ifaceDocs  = []string{"1", `"s"`, "null", "true", `[1,"a"]`, `{"k":1,"k":2}`, "-1.5e3", "12345678901234567890", "{}", "[]", `{"a":{"b":[null]}}`, `["a\\\"]",{"k\\\\":"\\\"}"}]`}
+	ujDocs     = []string{`{"a": 1}`, "null", "1", `"s"`, `[1, 2]`, `["a\\\"]",{"k\\\\":"\\\"}"}]`}
 	utDocs     = []string{`"txt"`, "null", "1", `""`, "true", `"é"`, "[]"}
 	uiDocs     = []string{"5", `"5"`, "null", `"x"`, "[]"}
 	quotedDocs = []string{`"1"`, "1", `""`, `"x"`, "null", `"null"`, `" 1"`, `"true"`, `"\"a\""`, `"1.5"`}
@@ -383,7 +383,7 @@ func GenDoc(t reflect.Type, c Ch, depth int) *Doc {
 			case 4:
 				d.Obj = append(d.Obj, Member{key, val()}, Member{key, val()})
 			case 5:
-				d.Obj = append(d.Obj, Member{`"zz"`, lit(f.Type, `[1,{"a":2,"q\\\"":"\\\\\\\"}x]"},"e\\\\"]`)}, Member{key, val()})
+				d.Obj = append(d.Obj, Member{`"zz"`, lit(f.Type, `[1,{"a":2,"q\\\"}":"\\\\\\\"]x"},"e\\\\"]`)}, Member{key, val()})
 			case 6:
 				d.Obj = append(d.Obj, Member{key, val()}, Member{`"` + name + `x"`, lit(f.Type, "1")})
 			}
